@@ -64,7 +64,7 @@ def build_shared(case):
     steps: its demand is met from the start and must still be met when it leaves."""
     rng = random.Random("C09s:%s:%s:%s" % (case["seed"], case["i"], case["strategy"]))
     strat = case["strategy"]
-    interval = rng.choice([10, 15, 15, 30])
+    interval = rng.choice([10, 15, 15, 30, 45, 40, 90])
     dt = datetime.timedelta(minutes=interval)
     start = T0 + datetime.timedelta(days=rng.choice([0, 1, 4]), hours=rng.choice([0, 6, 14]))
     stype = rng.choice(["deps", "opps"])
@@ -146,7 +146,7 @@ def build_profile(case):
     from spice_ev.loading_curve import LoadingCurve
     rng = random.Random("C09p:%s:%s:%s" % (case["seed"], case["i"], case["strategy"]))
     strat = case["strategy"]
-    interval = rng.choice([10, 15, 15, 30])
+    interval = rng.choice([10, 15, 15, 30, 45, 40, 90])
     dt = datetime.timedelta(minutes=interval)
     start = T0 + datetime.timedelta(days=rng.choice([0, 1, 4]), hours=rng.choice([0, 6, 14]))
     cname, pts = rng.choice(scen.CURVES[:3])
@@ -235,7 +235,7 @@ def build(case):
         return build_shared(case)
     rng = random.Random("C09:%s:%s:%s" % (case["seed"], case["i"], case["strategy"]))
     strat = case["strategy"]
-    interval = rng.choice([5, 10, 15, 15, 30])
+    interval = rng.choice([5, 10, 15, 15, 30, 45, 25])
     dt = datetime.timedelta(minutes=interval)
     start = T0 + datetime.timedelta(days=rng.choice([0, 1, 4]), hours=rng.choice([0, 6, 14, 21]))
     n_veh = rng.randint(1, 4)
